@@ -756,9 +756,98 @@ fn token_trees(ts: &rustc_ast::tokenstream::TokenStream, out: &mut String) {
 struct Cb {
     out_dir: String,
     nonce: String,
+    ast_structs: Vec<String>,
+}
+
+fn ast_attrs(sm: &rustc_span::source_map::SourceMap, attrs: &[rustc_ast::ast::Attribute]) -> String {
+    let mut o = String::from("[");
+    let mut first = true;
+    for a in attrs {
+        if let rustc_ast::ast::AttrKind::Normal(n) = &a.kind {
+            let path: Vec<String> = n.item.path.segments.iter().map(|s| s.ident.name.to_string()).collect();
+            let mut toks = String::new();
+            match &n.item.args {
+                rustc_ast::ast::AttrItemKind::Unparsed(rustc_ast::ast::AttrArgs::Delimited(d)) => token_trees(&d.tokens, &mut toks),
+                _ => toks.push_str("[]"),
+            }
+            if !first {
+                o.push(',');
+            }
+            first = false;
+            let loc = sm.lookup_char_pos(a.span.lo());
+            let _ = write!(
+                o,
+                "{{\"path\":{},\"tokens\":{},\"file\":{},\"line\":{}}}",
+                esc(&path.join("::")),
+                toks,
+                esc(&format!("{}", loc.file.name.prefer_local_unconditionally())),
+                loc.line
+            );
+        }
+    }
+    o.push(']');
+    o
+}
+
+fn ast_items(sm: &rustc_span::source_map::SourceMap, items: &[Box<rustc_ast::ast::Item>], modpath: &str, out: &mut Vec<String>) {
+    use rustc_ast::ast::{ItemKind, ModKind, VariantData};
+    for it in items {
+        match &it.kind {
+            ItemKind::Mod(_, ident, ModKind::Loaded(inner, ..)) => {
+                let mp = format!("{}::{}", modpath, ident.name);
+                ast_items(sm, inner, &mp, out);
+            }
+            ItemKind::Struct(ident, _, vd) => {
+                let fields = match vd {
+                    VariantData::Struct { fields, .. } => &fields[..],
+                    VariantData::Tuple(fields, _) => &fields[..],
+                    VariantData::Unit(_) => &[][..],
+                };
+                let mut any = false;
+                let mut fs = String::from("[");
+                for (i, f) in fields.iter().enumerate() {
+                    if i > 0 {
+                        fs.push(',');
+                    }
+                    let at = ast_attrs(sm, &f.attrs);
+                    if at.len() > 2 {
+                        any = true;
+                    }
+                    let nm = f.ident.map(|i| i.name.to_string()).unwrap_or_else(|| format!("{}", i));
+                    let tys = rustc_ast_pretty::pprust::ty_to_string(&f.ty);
+                    let _ = write!(fs, "{{\"name\":{},\"ty_src\":{},\"attrs\":{}}}", esc(&nm), esc(&tys), at);
+                }
+                fs.push(']');
+                let sat = ast_attrs(sm, &it.attrs);
+                if any || sat.len() > 2 {
+                    let loc = sm.lookup_char_pos(it.span.lo());
+                    out.push(format!(
+                        "{{\"path\":{},\"name\":{},\"file\":{},\"line\":{},\"attrs\":{},\"fields\":{}}}",
+                        esc(&format!("{}::{}", modpath, ident.name)),
+                        esc(&ident.name.to_string()),
+                        esc(&format!("{}", loc.file.name.prefer_local_unconditionally())),
+                        loc.line,
+                        sat,
+                        fs
+                    ));
+                }
+            }
+            _ => {}
+        }
+    }
 }
 
 impl Callbacks for Cb {
+    fn after_expansion<'tcx>(&mut self, _c: &rustc_interface::interface::Compiler, tcx: TyCtxt<'tcx>) -> Compilation {
+        let steal = tcx.resolver_for_lowering();
+        let guard = steal.borrow();
+        let krate = &guard.1;
+        let crate_name = tcx.crate_name(LOCAL_CRATE).to_string();
+        let sm = tcx.sess.source_map();
+        ast_items(sm, &krate.items, &crate_name, &mut self.ast_structs);
+        Compilation::Continue
+    }
+
     fn after_analysis<'tcx>(&mut self, _c: &rustc_interface::interface::Compiler, tcx: TyCtxt<'tcx>) -> Compilation {
         let crate_name = tcx.crate_name(LOCAL_CRATE).to_string();
         let mut cx = Ctx {
@@ -938,6 +1027,8 @@ impl Callbacks for Cb {
         out.push_str(&consts.join(",\n"));
         out.push_str("],\"adts\":[\n");
         out.push_str(&adts.join(",\n"));
+        out.push_str("],\"ast_structs\":[\n");
+        out.push_str(&self.ast_structs.join(",\n"));
         out.push_str("],\"bodies\":[\n");
         out.push_str(&bodies.join(",\n"));
         out.push_str("]}\n");
@@ -975,7 +1066,7 @@ fn main() {
         && crates.split(',').any(|c| c == crate_name)
         && !args.iter().any(|a| a == "--test");
     if wanted {
-        let mut cb = Cb { out_dir, nonce };
+        let mut cb = Cb { out_dir, nonce, ast_structs: vec![] };
         rustc_driver::run_compiler(&args, &mut cb);
     } else {
         rustc_driver::run_compiler(&args, &mut Nop);
